@@ -4,8 +4,13 @@
 #ifndef VR_HOOKS_H
 #define VR_HOOKS_H
 void vr_sp(void);
+#ifndef VR_SP_LOCKS_ONLY
+/* (with -DVR_SP_LOCKS_ONLY only read-modify-write operations -- lock acquisitions, CAS -- are scheduling points: the
+ * classic check-then-lock windows; used where the full set makes the encoding intractable, stated in the evidence) */
 #define __atomic_load_n(p, m) (vr_sp(), __atomic_load_n(p, m))
 #define __atomic_store_n(p, v, m) (vr_sp(), __atomic_store_n(p, v, m))
+#define __atomic_clear(p, m) (vr_sp(), __atomic_clear(p, m))
+#endif
 #define __atomic_exchange_n(p, v, m) (vr_sp(), __atomic_exchange_n(p, v, m))
 #define __atomic_compare_exchange_n(p, e, d, w, s, f) (vr_sp(), __atomic_compare_exchange_n(p, e, d, w, s, f))
 #define __atomic_fetch_add(p, v, m) (vr_sp(), __atomic_fetch_add(p, v, m))
@@ -14,7 +19,6 @@ void vr_sp(void);
 #define __atomic_fetch_or(p, v, m) (vr_sp(), __atomic_fetch_or(p, v, m))
 #define __atomic_fetch_xor(p, v, m) (vr_sp(), __atomic_fetch_xor(p, v, m))
 #define __atomic_test_and_set(p, m) (vr_sp(), __atomic_test_and_set(p, m))
-#define __atomic_clear(p, m) (vr_sp(), __atomic_clear(p, m))
 #endif
 /* the futex syscall: split by operation at the call site (constant), so that the model has no syntactic recursion
  * (a sleeping waiter runs environment steps whose unlock calls FUTEX_WAKE) */
